@@ -1,5 +1,5 @@
 from core import Unit as U
-HASH = ["secp256k1_sha256_write", "secp256k1_sha256_finalize"]
+HASH = ["secp256k1_sha256_write", "secp256k1_sha256_finalize", "secp256k1_schnorrsig_sha256_tagged_aggregation"]
 UNITS = [
     U("C17.aggverify", ["C17"], "harness/C17/aggverify.c", "h_aggverify",
       replace=HASH + ["secp256k1_ge_set_xo_var", "secp256k1_schnorrsig_challenge", "secp256k1_ecmult", "secp256k1_ecmult_gen", "secp256k1_gej_add_ge_var", "secp256k1_gej_add_var"],
